@@ -7,8 +7,8 @@ and `time` seen by machine_controller are replaced from outside, so the real Mac
 SCPConnection / SCPPacket code runs, datagram by datagram, against the simulator.
 
 A case is a history: one machine (initial core states, per-fill miss schedule), some binaries, and a sequence
-of calls on ONE controller (so that the nearest-neighbour id and the state left by earlier loads carry
-over).  For every call the driver reports the outcome, every datagram the machine received during the call
+of calls on ONE controller (so that the nearest-neighbour id, the state left by earlier loads and anything the
+controller object remembers carry over); a call may be preceded by rewriting some of the files.  For every call the driver reports the outcome, every datagram the machine received during the call
 (decoded from the wire by the simulator) with the reply, for each fill the chips that missed it and a summary of every core just before it, the state of every
 core afterwards and the controller's nn id."""
 import os
@@ -39,6 +39,9 @@ def run_case(c):
         mc = MachineController("simulated-machine")
         out = []
         for call in c["calls"]:
+            for b, data in call.get("rewrite") or []:      # the file is rebuilt before this call
+                with open(paths[b], "wb") as f:
+                    f.write(bytes(bytearray(data)))
             amap = {}
             for b, targets in call["map"]:
                 amap[paths[b]] = {(x, y): set(cores) for x, y, cores in targets}
